@@ -676,6 +676,15 @@ def mutate_directive(rng, d):
 
 def rand_elem(rng, depth=0):
     r = rng.random()
+    if depth == 0 and rng.random() < 0.12:
+        # lists inside lists (and inside dictionaries inside lists) with items before and after them: the display form of a
+        # value is built from the display forms of its items, to any depth
+        inner = {"t": "list", "v": [N(float(rng.randrange(0, 9))) for _ in range(rng.randrange(1, 4))]}
+        if rng.random() < 0.4:
+            inner = {"t": "list", "v": [N(3.0), inner, S([97])]}
+        if rng.random() < 0.3:
+            inner = {"t": "dict", "v": [[{"cps": [107]}, inner]]}
+        return {"t": "list", "v": [rand_elem(rng, 2) for _ in range(rng.randrange(1, 3))] + [inner] + [rand_elem(rng, 2) for _ in range(rng.randrange(0, 3))]}
     if r < 0.35:
         return N(rand_double(rng))
     if r < 0.6:
